@@ -348,6 +348,8 @@ def run_seq_node(a5mod, seam, spec):
     """Single-threaded execution of the run's calls in a given merged order
     (used to ask whether an observation is sequentially explainable).  An
     injected 'kill' fault is applied at the same per-thread step."""
+    global _history_mode
+    _history_mode = True
     clock.reset()
     clock.active = True
     for call in spec.get('warm', []):
@@ -1239,6 +1241,8 @@ class Sched:
 
 def _prepare_threads_node(a5mod, seam, spec):
     """Everything that happens before the threads start: warm-up calls, capacity filler."""
+    global _history_mode
+    _history_mode = True                 # outside the simulated threads a blocking wait can never be satisfied
     clock.reset()
     clock.active = True
     warm_out = []
